@@ -1765,6 +1765,12 @@ class GtkDocCommentBlockParser(object):
                     # Translate deprecated tag name into corresponding annotation name
                     ann_name = tag_name_lower.replace(' ', '-')
 
+                    # The annotation ends up on the identifier; if that had no
+                    # annotations of its own, later diagnostics about this one
+                    # should at least point at the tag it came from.
+                    if comment_block.annotations.position is None:
+                        comment_block.annotations.position = position
+
                     if tag_name_lower == TAG_ATTRIBUTES:
                         transformed = ''
                         result = self._parse_fields(position,
